@@ -457,6 +457,14 @@ func (conn *Conn) SetDirectIO(directIO bool) {
 	}
 }
 
+// isShutdown reports whether the connection has ended or is being closed.
+func (conn *Conn) isShutdown() bool {
+	conn.mutex.Lock()
+	down := conn.shutdown || conn.closing
+	conn.mutex.Unlock()
+	return down
+}
+
 // NumCalls returns the number of calls.
 func (conn *Conn) NumCalls() (n uint64) {
 	conn.mutex.Lock()
